@@ -5,14 +5,16 @@
    Cipher.DecryptFromBuffer (C05_accept_iff), its totality, that an error carries no data
    (structural: the result type), and the rejections decided before any hashing.
 
-   What needs assumptions is stated with the assumption as an explicit hypothesis:
-     aes_inverse' aes_enc aes_dec  : aes_enc k (aes_dec k b) = b, |aes_dec k b| = 16 (AES is a permutation)
-     no_collision sha256 a b       : the 128 middle bits of SHA-256 do not collide on the two
-                                     inputs a b named in the statement.
-   A modification of the msg_key itself cannot be excluded by collision freedom (no second
-   preimage is involved): C05_tamper_accepted_is_forgery states exactly what an accepted
-   modified message must be -- a complete genuine sealing of another plaintext under the
-   secret key bytes auth_key[88+x .. 120+x), i.e. a forgery of the MAC. *)
+   The cryptographic content is stated WITHOUT any hypothesis on SHA-256, in the constructive
+   form "accepting a modified / reflected / foreign message EXHIBITS an explicit collision":
+     collision sha256 a b := a <> b /\ msg_key-bits (sha256 a) = msg_key-bits (sha256 b)
+   (the 128 middle bits, i.e. substr (SHA256 (.), 8, 16)) on two inputs named in the statement.
+   The only assumption on the primitives is that AES is a permutation on 16-byte blocks:
+     aes_inverse' aes_enc aes_dec  : aes_enc k (aes_dec k b) = b, |aes_dec k b| = 16.
+   A modification of the msg_key itself involves no collision at all (no second preimage):
+   C05_tamper_accepted_is_forgery states exactly what an accepted modified message must be --
+   a complete genuine sealing of another plaintext under the secret key bytes
+   auth_key[88+x .. 120+x), i.e. a forgery of the MAC. *)
 From Coq Require Import ZArith List Bool Lia.
 From TD Require Import Lib.Bytes Lib.GoSem Gen.CipherConsts Model.MsgCrypto Proof.MsgCrypto Proof.MsgAccept.
 Import ListNotations.
@@ -69,51 +71,55 @@ Theorem C05_accepted_is_peer_output :
 Proof. exact accepted_is_sealed. Qed.
 Print Assumptions C05_accepted_is_peer_output.
 
-(* Genuine message ct = sealed s k padded (what side s sends).  Any other byte string with
-   the same key id and msg_key -- bit flips anywhere in the body, truncation, extension,
-   block reordering, splicing -- is rejected by the other side unless SHA-256 collides. *)
-Theorem C05_reject_body_tamper :
+(* Genuine message ct = sealed s k padded (what side s sends).  If the other side accepts any
+   other byte string with the same key id and msg_key -- bit flips anywhere in the body,
+   truncation, extension, block reordering, splicing -- then the two msg_key hash inputs
+   (secret key window ++ plaintext) are different and collide. *)
+Theorem C05_accepted_body_tamper_exhibits_collision :
   forall sha256 aes_enc aes_dec, aes_inverse' aes_enc aes_dec ->
   forall (s : side) (k : authkey) (padded : list Z), length (ak_id k) = 8%nat ->
-  forall c' : list Z,
+  forall (c' : list Z) (d : dec),
     firstn 24 c' = firstn 24 (sealed sha256 aes_enc s k padded) ->
     c' <> sealed sha256 aes_enc s k padded ->
-    no_collision sha256 (mac_input (ak_value k) (decrypted_plaintext sha256 aes_dec (other s) k c') s)
-                        (mac_input (ak_value k) padded s) ->
-    exists e : err, decrypt sha256 aes_dec (other s) k c' = Err e.
-Proof. exact reject_body_tamper. Qed.
-Print Assumptions C05_reject_body_tamper.
+    decrypt sha256 aes_dec (other s) k c' = Ok d ->
+    collision sha256 (mac_input (ak_value k) (decrypted_plaintext sha256 aes_dec (other s) k c') s)
+                     (mac_input (ak_value k) padded s).
+Proof. exact accepted_body_tamper_collides. Qed.
+Print Assumptions C05_accepted_body_tamper_exhibits_collision.
 
-(* Reflection: the side that produced ct decrypts it.  Rejected unless SHA-256 collides,
-   provided the two 32-byte key windows differ (they coincide e.g. for a constant key, for
-   which MTProto 2.0 itself has no direction separation). *)
-Theorem C05_reject_reflection :
+(* Reflection: if the side that produced ct accepts it back, SHA-256 collides on the two inputs --
+   provided the two 32-byte key windows differ (they coincide e.g. for a constant key, for which
+   MTProto 2.0 itself has no direction separation). *)
+Theorem C05_accepted_reflection_exhibits_collision :
   forall sha256 aes_enc aes_dec (s : side) (k : authkey) (padded : list Z),
-    length (ak_id k) = 8%nat -> length (ak_value k) = 256%nat ->
+    length (ak_id k) = 8%nat ->
+  forall d : dec,
+    length (ak_value k) = 256%nat ->
     gslice (ak_value k) (88 + x_of s) (32 + 88 + x_of s)
       <> gslice (ak_value k) (88 + x_of (other s)) (32 + 88 + x_of (other s)) ->
-    no_collision sha256
+    decrypt sha256 aes_dec s k (sealed sha256 aes_enc s k padded) = Ok d ->
+    collision sha256
       (mac_input (ak_value k) (decrypted_plaintext sha256 aes_dec s k (sealed sha256 aes_enc s k padded)) (other s))
-      (mac_input (ak_value k) padded s) ->
-    exists e : err, decrypt sha256 aes_dec s k (sealed sha256 aes_enc s k padded) = Err e.
-Proof. exact reject_reflection. Qed.
-Print Assumptions C05_reject_reflection.
+      (mac_input (ak_value k) padded s).
+Proof. exact accepted_reflection_collides. Qed.
+Print Assumptions C05_accepted_reflection_exhibits_collision.
 
-(* A message under another auth key: rejected outright when the ids differ; with equal ids,
-   rejected unless SHA-256 collides, provided the msg_key windows of the two keys differ. *)
-Theorem C05_reject_foreign_key :
-  forall sha256 aes_enc aes_dec (s : side) (k : authkey) (padded : list Z) (n : nat),
-    length (ak_id k) = 8%nat -> length padded = (16 * n)%nat ->
-  forall k2 : authkey,
+(* A message under another auth key k2: a different key id is rejected outright
+   (C05_reject_key_id); if it is accepted, the ids are equal and -- provided the msg_key windows
+   of the two keys differ -- SHA-256 collides on the two inputs. *)
+Theorem C05_accepted_foreign_key_exhibits_collision :
+  forall sha256 aes_enc aes_dec (s : side) (k : authkey) (padded : list Z),
+    length (ak_id k) = 8%nat ->
+  forall (k2 : authkey) (d : dec),
     length (ak_value k) = 256%nat -> length (ak_value k2) = 256%nat ->
-    ak_id k2 <> ak_id k \/
-    (gslice (ak_value k2) (88 + x_of s) (32 + 88 + x_of s) <> gslice (ak_value k) (88 + x_of s) (32 + 88 + x_of s) /\
-     no_collision sha256
-       (mac_input (ak_value k2) (decrypted_plaintext sha256 aes_dec (other s) k2 (sealed sha256 aes_enc s k padded)) s)
-       (mac_input (ak_value k) padded s)) ->
-    exists e : err, decrypt sha256 aes_dec (other s) k2 (sealed sha256 aes_enc s k padded) = Err e.
-Proof. exact reject_foreign_key. Qed.
-Print Assumptions C05_reject_foreign_key.
+    gslice (ak_value k2) (88 + x_of s) (32 + 88 + x_of s) <> gslice (ak_value k) (88 + x_of s) (32 + 88 + x_of s) ->
+    decrypt sha256 aes_dec (other s) k2 (sealed sha256 aes_enc s k padded) = Ok d ->
+    ak_id k2 = ak_id k /\
+    collision sha256
+      (mac_input (ak_value k2) (decrypted_plaintext sha256 aes_dec (other s) k2 (sealed sha256 aes_enc s k padded)) s)
+      (mac_input (ak_value k) padded s).
+Proof. exact accepted_foreign_key_collides. Qed.
+Print Assumptions C05_accepted_foreign_key_exhibits_collision.
 
 (* Whatever modified message is accepted at all is a complete, genuine sealing of a different
    plaintext (a MAC forgery). *)
@@ -143,37 +149,39 @@ Example C05_accepts_something :
   exists d, decrypt toy_sha toy_aes Server ex_k ex_ct = Ok d.
 Proof. eexists. vm_compute. reflexivity. Qed.
 
-Example C05_body_tamper_hypotheses_satisfiable :
-  let c' := firstn 24 ex_ct ++ map (Z.lxor 1) (skipn 24 ex_ct) in
-  length (ak_id ex_k) = 8%nat /\ firstn 24 c' = firstn 24 ex_ct /\ c' <> ex_ct /\
-  no_collision toy_sha (mac_input (ak_value ex_k) (decrypted_plaintext toy_sha toy_aes (other Client) ex_k c') Client)
-                       (mac_input (ak_value ex_k) ex_padded Client).
+(* the premises of the three "exhibits a collision" theorems are jointly satisfiable: with a weak
+   toy hash (it ignores everything after the first 16 plaintext bytes) a modified body, a reflected
+   message and a foreign key ARE accepted, and the theorems then yield the toy hash's collision *)
+Definition weak_sha (m : list Z) : list Z := firstn 32 (repeat 0 8 ++ firstn 16 (skipn 32 m) ++ repeat 0 32).
+Definition ex_ctw : list Z := sealed weak_sha toy_aes Client ex_k ex_padded.
+Definition ex_tampered : list Z := firstn 71 ex_ctw ++ map (Z.lxor 1) (skipn 71 ex_ctw).   (* last padding byte *)
+
+Example C05_body_tamper_premises_satisfiable :
+  length (ak_id ex_k) = 8%nat /\ firstn 24 ex_tampered = firstn 24 ex_ctw /\ ex_tampered <> ex_ctw /\
+  exists d, decrypt weak_sha toy_aes (other Client) ex_k ex_tampered = Ok d.
 Proof.
-  cbv zeta. split; [reflexivity|]. split; [vm_compute; reflexivity|]. split; [vm_compute; discriminate|].
-  intros H. vm_compute in H. discriminate H.
+  split; [reflexivity|]. split; [vm_compute; reflexivity|]. split; [vm_compute; discriminate|].
+  eexists. vm_compute. reflexivity.
 Qed.
 
-Example C05_reflection_hypotheses_satisfiable :
+(* constant "hash": everything collides, so reflection and a foreign key with the same id pass *)
+Definition const_sha (m : list Z) : list Z := repeat 7 32.
+Definition ex_ctc : list Z := sealed const_sha toy_aes Client ex_k ex_padded.
+Example C05_reflection_premises_satisfiable :
   length (ak_id ex_k) = 8%nat /\ length (ak_value ex_k) = 256%nat /\
   gslice (ak_value ex_k) (88 + x_of Client) (32 + 88 + x_of Client)
     <> gslice (ak_value ex_k) (88 + x_of (other Client)) (32 + 88 + x_of (other Client)) /\
-  no_collision toy_sha
-    (mac_input (ak_value ex_k) (decrypted_plaintext toy_sha toy_aes Client ex_k ex_ct) (other Client))
-    (mac_input (ak_value ex_k) ex_padded Client).
+  exists d, decrypt const_sha toy_aes Client ex_k ex_ctc = Ok d.
 Proof.
   split; [reflexivity|]. split; [reflexivity|]. split; [vm_compute; discriminate|].
-  intros H. vm_compute in H. discriminate H.
+  eexists. vm_compute. reflexivity.
 Qed.
-
-Example C05_foreign_key_hypotheses_satisfiable :
-  length (ak_id ex_k) = 8%nat /\ length ex_padded = (16 * 3)%nat /\
-  length (ak_value ex_k) = 256%nat /\ length (ak_value ex_k2) = 256%nat /\
+Example C05_foreign_key_premises_satisfiable :
+  length (ak_id ex_k) = 8%nat /\ length (ak_value ex_k) = 256%nat /\ length (ak_value ex_k2) = 256%nat /\
   gslice (ak_value ex_k2) (88 + x_of Client) (32 + 88 + x_of Client)
     <> gslice (ak_value ex_k) (88 + x_of Client) (32 + 88 + x_of Client) /\
-  no_collision toy_sha
-    (mac_input (ak_value ex_k2) (decrypted_plaintext toy_sha toy_aes (other Client) ex_k2 ex_ct) Client)
-    (mac_input (ak_value ex_k) ex_padded Client).
+  exists d, decrypt const_sha toy_aes (other Client) ex_k2 ex_ctc = Ok d.
 Proof.
-  split; [reflexivity|]. split; [reflexivity|]. split; [reflexivity|]. split; [reflexivity|].
-  split; [vm_compute; discriminate|]. intros H. vm_compute in H. discriminate H.
+  split; [reflexivity|]. split; [reflexivity|]. split; [reflexivity|]. split; [vm_compute; discriminate|].
+  eexists. vm_compute. reflexivity.
 Qed.
